@@ -109,14 +109,32 @@ def task(t):
             o2 = run.call(s, "<%s as PartialEq>::eq" % q, [run.ref(s, qx), run.ref(s, qy)])
             return E.ord_conds(o1), E.bool_of(o2)
 
+        def op_pair(x, ux, y, uy):
+            """the six operators as the user gets them: generated impl bodies where the macro overrides them,
+            std's provided methods (from partial_cmp / eq) otherwise"""
+            out = {}
+            for name, tr in (("lt", "PartialOrd"), ("le", "PartialOrd"), ("gt", "PartialOrd"), ("ge", "PartialOrd"), ("ne", "PartialEq")):
+                s = run.state()
+                qx, qy = run.qty(s, q, x, ux), run.qty(s, q, y, uy)
+                out[name] = E.bool_of(run.call(s, "<%s as %s>::%s" % (q, tr, name), [run.ref(s, qx), run.ref(s, qy)]))
+            return out
+
         c_ab, e_ab = cmp_pair(a, ua, b, ub)
         c_ba, e_ba = cmp_pair(b, ub, a, ua)
+        o_ab = op_pair(a, ua, b, ub)
+        o_ba = op_pair(b, ub, a, ua)
         R.absorb_exec(run.ex)
         sym = [
             ("a==b <=> b==a", e_ab, e_ba),
-            ("a<b <=> b>a", c_ab["Less"], c_ba["Greater"]),
-            ("a>b <=> b<a", c_ab["Greater"], c_ba["Less"]),
+            ("a<b <=> b>a", o_ab["lt"], o_ba["gt"]),
+            ("a>b <=> b<a", o_ab["gt"], o_ba["lt"]),
+            ("a<=b <=> b>=a", o_ab["le"], o_ba["ge"]),
             ("Equal <=> ==", c_ab["Equal"], e_ab),
+            ("a<b <=> partial_cmp Less", o_ab["lt"], c_ab["Less"]),
+            ("a>b <=> partial_cmp Greater", o_ab["gt"], c_ab["Greater"]),
+            ("a<=b <=> a<b or a==b", o_ab["le"], b_or(o_ab["lt"], e_ab)),
+            ("a>=b <=> a>b or a==b", o_ab["ge"], b_or(o_ab["gt"], e_ab)),
+            ("a!=b <=> not a==b", o_ab["ne"], b_not(e_ab)),
         ]
         failed_sym = []
         for name, l, r_ in sym:
@@ -233,6 +251,8 @@ def oracle(c, out, scales):
         return True, "order dependent: " + desc
     if (f["pc"] == "Some(Equal)") != f["eq"] or f["ne"] == f["eq"]:
         return True, "partial_cmp/==/!= inconsistent: " + desc
+    if f["lt"] != (f["pc"] == "Some(Less)") or f["gt"] != (f["pc"] == "Some(Greater)") or f["le"] != (f["lt"] or f["eq"]) or f["ge"] != (f["gt"] or f["eq"]):
+        return True, "<, <=, >, >= inconsistent with partial_cmp / ==: " + desc
     if be == "f64" and (math.isinf(a) or math.isinf(b)):
         return False, desc
     sa, sb = F(scales[q][ua]), F(scales[q][ub])
